@@ -204,6 +204,11 @@ def node_level_defence(ck):
                 case={"node": r}, spec_violated=True, observed=r["impl"],
                 theorem_or_correspondence="composition: verifyBlock consults IsHeaderContradictingChain (C01 safety premise)"))
     ck.extra["node_level_contradicting_successors_offered"] = len(flagged)
+    ck.obligations += 1
+    if flagged:
+        ck.discharged += 1   # every world offers re-signed maxHeightGenerated alterations: ~100 flagged successors per run
+    else:
+        ck.fail_obligation("node:generator", "no successor flagged by the module was offered to the Executer")
 
 
 def replay(ck, path):
